@@ -83,6 +83,7 @@ pub fn header(ctx: &mut Ctx, reg: &Region, tr: &mut Tr, opts: &Opts, h: &Multibo
                 tl!(tr, " walk end after {}", k);
                 // M6b: the provided Iterator methods agree with the next() sequence
                 crate::iterproto::check(ctx, "header-tags", &|| h.iter(), &|t: &multiboot2_common::DynSizedStructure<multiboot2_header::HeaderTagHeader>| (t as *const _ as *const u8 as usize, core::mem::size_of_val(t)), 4096, true);
+                crate::iterproto::check_clone(ctx, "header-tags", &|| h.iter(), &|t: &multiboot2_common::DynSizedStructure<multiboot2_header::HeaderTagHeader>| (t as *const _ as *const u8 as usize, core::mem::size_of_val(t)), 4096);
                 break;
             }
             Out::Val(Some(t)) => {
